@@ -44,6 +44,17 @@ CLAIMED = {
         'under a move of the reference surface. A genuine defect (wrong sign passed by Panel.calc_kM) was repaired (fix: ca9efb9).',
    note='As C02; LAPACK eigh trusted for the invariance predicate.',
    technique='Lean 4 proof over regenerated model + translation validation + oracle', ref='4/C04'),
+ 'C19': dict(
+   text='Regenerated Lean models of fkAx/fkAy/fcA (plate, plate_w, cpanel); 14 theorems: each entry equals the by-parts form '
+        '-beta*Int(dw_A/dflow w_B) - gamma*Int(w_A w_B) (gamma only in the cylindrical x-flow kernel) resp. -aeromu*Int(w_A w_B), on w only; '
+        'under the vanishing-boundary-term hypothesis this IS the bilinear form of p = -beta dw/dflow + gamma w; linearity in the '
+        'coefficients; hand model of the coefficient derivation with theorems beta = rho V^2/q, gamma = beta/(2rq), '
+        'aeromu = rho V (M^2-2)/q^3 (q^2 = M^2-1). Ties: V for the kernels, driver correspondence for the coefficients actually '
+        'handed to the kernels, full bilinear-form oracle vs calc_kA/calc_cA incl. symmetry classes, bay delegation. Two genuine '
+        'defects repaired (fix: 3ef86b6, caa1207).',
+   note='As C02; (Mach^2-1)**0.5 enters the coefficient model as a parameter; conical panels rejected by the code; flow along y has no '
+        'curvature term in any kernel (stated).',
+   technique='Lean 4 proof over regenerated model + hand model with driver correspondence + oracle', ref='4/C19'),
  'C09': dict(
    text='Lean 4 theorems about a hand-written executable state-machine model of _solver_NR (all residual and '
         'line-search histories, all admissible configurations): every reported pair is immediately preceded by a '
